@@ -10,7 +10,7 @@ T = {
  "C05": ("lock-step differential (never-persisted twin vs persisted/restored twin) over generated histories", "Differential: two conductors receive the same calls, one is persisted/restored at generated points through a real JSON round trip; any observable difference is a violation.", "persistence = json round trip of serialize()"),
  "C06": ("generated publish placements x schedules against a reference model of contexts with provenance (publish events and supersede sets)", "The user-visible context and rendered input of every offered task, and the output, are compared with a model that tracks which publish events reached each execution and which supersede which.", "scalar/list values; split-task executions matched to pending model contexts; R3 matched narrowly; R1 truncated"),
  "C07": ("directed fork-join generation + reference-model oracle (join instances per route) + unreachable-join oracle at rest", "Directed and general generated definitions x schedules; each join offer must consume a firing of its model instance; at rest a partial instance must have failed the workflow with UnreachableJoinError.", "join N < inbound outside cycles only; known finding R1 matched narrowly"),
- "C08": ("metamorphic relation over the set of linearisations (exhaustive DFS up to 720 orders, else 64)", "One definition with fixed per-task outcomes executed under every completion order (or 64): status, executed multiset, published deltas and non-concurrent output variables must agree.", "publishes are literals/result-derived; concurrent-writer exclusion is conservative; R3/R1 matched or excluded"),
+ "C08": ("metamorphic relation over the set of linearisations (exhaustive DFS up to 720 orders, else 64)", "One definition with fixed per-task outcomes executed under every completion order (or 64): status, executed multiset, published deltas and non-concurrent output variables must agree.", "publishes are literals/result-derived; a variable is excluded only if two of its publishing transitions that fired in the scenario are concurrent; R3/R1 matched or excluded"),
  "C09": ("twin-run differential with a constructed drain window (paused twin vs plain twin with identical completion order)", "For generated definitions, outcome tables and pause positions the paused twin and the plain twin receive the same completion reports in the same order; no offers while pausing/paused, paused exactly at the last report, same held-back work, same final status/errors/executed/output.", "output compared on variables with <= 1 publish event; executed sets on success only; R1 orders excluded; R18 matched"),
  "C10": ("stateful generation with one cancel at a generated position + ledger/model invariant", "Cancellation invariant (no offers, canceling/canceled by ledger, final canceled, output renders) on generated histories.", "definitions cannot fail expressions (C11 owns that); dormant != in flight"),
  "C19": ("cross-process differential replay under different PYTHONHASHSEED values + idempotence probe at every poll point", "Generated definitions (accepted and rejected mutants) and histories replayed in 4 interpreters with different hash seeds, digests compared step by step; three consecutive get_next_tasks() compared at every poll point with state diff.", "children use the same library-free driver; canonical JSON for objects, ordered comparison for lists"),
